@@ -60,7 +60,8 @@ def gen_descs(g, tier):
             for upd in (False, True):
                 for cached in (False, True):
                     for _ in range(1 if q else 12):
-                        R1, R2, D = g.randint(1, 3), g.randint(1, 3), g.randint(1, 3)
+                        # both batches > 1 (layouts of the cached arrays only matter then); D random
+                        R1, R2, D = g.randint(2, 3), g.randint(2, 3), g.randint(1, 3)
                         Rf, Ru = R2, R1
                         if op == "hadamard":
                             Rf = g.choice([1, R1]); Ru = R1
@@ -78,7 +79,7 @@ def gen_descs(g, tier):
     for (cls, Rc, Rx, Dy, Dx) in lin.shapes_cond(g, tier, 0 if q else 300):
         if cls == "full":
             continue
-        if q and (Dy, Dx) == (2, 1):
+        if q and (Dy, Dx) == (2, 1) and cls != "diag":
             continue
         for scn in ("cond_x", "set_y", "joint", "marg_t", "cond_t", "entropies"):
             if q and scn in ("cond_x", "entropies") and Rx > 1:
